@@ -335,14 +335,21 @@ def rule_r3(prog, res) -> None:
             t = kwarg(c, "tag")
             tag = t.value if isinstance(t, ast.Constant) else None
             sends.append((fi, c, k, tag, _is_sentinel(prog, fi, c.args[0])))
+            # a message goes to the rank it is meant for: the destination is named (left out, mpi4py sends to rank 0 —
+            # the message meant for a worker / the writer rank arrives at the root, which never receives it or takes
+            # it for something else; the intended receiver waits forever)
+            if kwarg(c, "dest") is None and len(c.args) < 2:
+                res.violation("C06.R3", fi, c, f"`{norm_stmt(c)[:60]}` names no destination: mpi4py sends to rank 0 by default, the rank this message is meant for never gets it (it blocks in its receive) and rank 0 gets a message it does not expect", key_extra=f"send-without-dest-{fi.name}")
+            else:
+                res.ok("C06.R3", res.site(fi, norm_stmt(c)[:40]), "destination named", nontrivial=False)
     for fi in _mpi_funcs_inl(prog):
         env = prog.func_env(fi)
         for c, op, k in _mpi_calls(prog, fi):
             if op != "recv":
                 continue
-            src = kwarg(c, "source")
-            if src is None or "ANY_SOURCE" not in unparse(src):
-                continue
+            src = kwarg(c, "source") or (c.args[1] if len(c.args) > 1 else None)
+            if src is not None and "ANY_SOURCE" not in unparse(src):
+                continue  # (no source at all is mpi4py's default: ANY_SOURCE)
             n += 1
             res.touch(fi)
             t = kwarg(c, "tag")
@@ -427,6 +434,19 @@ def _counting_receiver(prog, res, fi, c, k, tag, sends) -> None:
     cfg = cfg_of(fn)
     loops = [x for x in walk_no_nested(fn) if isinstance(x, ast.While) and any(y is c for y in ast.walk(x))]
     if not loops:
+        # a single receive of a single message: the sentinel discipline does not apply; sound when all senders of the
+        # tag are one rank (an equality guard on the rank around every such send of the module)
+        snd = [(f, s) for f, s, kk, tg_, _sen in sends if kk == k and tg_ == tag and f.module is fi.module]
+        one_rank = bool(snd)
+        for f, s in snd:
+            fcfg = cfg_of(f.node)
+            for nd in fcfg.node_containing(s):
+                gs = [(t, pol) for t, pol in fcfg.guards(nd) if _rank_dependent(prog, f, t)]
+                if not any(pol and isinstance(t, ast.Compare) and len(t.ops) == 1 and isinstance(t.ops[0], ast.Eq) for t, pol in gs):
+                    one_rank = False
+        if one_rank:
+            res.ok("C06.R3", res.site(fi, norm_stmt(c)[:50]), f"single receive; every send on tag {tag} of the module runs on one rank (equality guard)", nontrivial=False)
+            return
         raise AnalysisError(f"C06.R3: wildcard receive in {fi.short} is not inside a while loop")
     lp = loops[0]
     names = [n.id for n in ast.walk(lp.test) if isinstance(n, ast.Name)]
